@@ -2,13 +2,14 @@ import MayVerif.Proof.Io.Inv
 namespace MayVerif.Io
 
 set_option maxHeartbeats 8000000 in
-theorem inv2_kstep (st st' : St) (k : Kt) (pc : KPc) (e : Env) (h : Inv1 st) (h2 : Inv2 st)
+theorem inv2_kstep (st st' : St) (k : Kt) (pc : KPc) (e : Env) (hc : Cfg st) (h : Inv1 st) (h2 : Inv2 st)
     (hpc : st.kpc k = pc) (hs : kstep st k pc e = some st') : Inv2 st' := by
   prep2
   have hk0 := k0 k; have hlt := lt k; have hwt := wt k; have hlk := lk k; have hwk := wk k
   cases pc with
   | off => simp [kstep] at hs
   | start s c r => simp [hpc, kTok, kHolds] at hk0 hlt hwt; crunch2
+  | arm s c r => simp [hpc, kTok, kHolds] at hk0 hlt hwt; crunch2
   | set s c r t => simp [hpc, kTok, kHolds] at hk0 hlt hwt; crunch2
   | store s c r => simp [hpc, kTok, kHolds] at hk0 hlt hwt; crunch2
   | load s c r => simp [hpc, kTok, kHolds] at hk0; crunch2
@@ -19,6 +20,7 @@ theorem inv2_kstep (st st' : St) (k : Kt) (pc : KPc) (e : Env) (h : Inv1 st) (h2
   | xor c => simp [hpc, kTok, kHolds] at hk0; crunch2
   | xio c => simp [hpc, kTok, kHolds] at hk0; crunch2
   | xtake s => simp [hpc, kTok, kHolds] at hk0; crunch2
+  | xDis s c => simp [hpc, kTok, kHolds] at hk0 hlk hwk; crunch2
   | reg0 s c r => simp [hpc, kTok, kHolds] at hk0 hlt hwt; crunch2
   | chk2 s c => simp [hpc, kTok, kHolds] at hk0; crunch2
   | own s => simp [hpc, kTok, kHolds] at hk0; crunch2
